@@ -13,7 +13,7 @@ CT = "(list (string * rhs) * option (list string) * list msg * list msg * bool)"
 RT = "(list (string * rhs) * list string)"
 PT = "(list (string * rhs) * option (list string) * list msg * list msg * bool * list (msg * msg))"
 KNOWN_NULL = ("empty-deriving-nonterminal-not-completed: the forecaster re-parses the history with the Earley parser, which does not complete an empty-deriving "
-              "nonterminal in every case (C05 nullable-reprediction): with such a control nonterminal a full interaction is not reported complete, or continuations "
+              "nonterminal in every case (C05 nullable-reprediction): with such a control nonterminal (or the implicit symbol of a `*`, `?`, `{0,n}` repetition) a full interaction is not reported complete, or continuations "
               "after the empty derivation are not offered")
 KNOWN_MERGE = ("options-merged-over-recipients: ForecastingNonTerminals keeps one packet per (sender, message type); when a grammar sends one message type "
                "from one sender to different recipients at different places, the options are merged and carry the recipient of the first one found")
@@ -219,6 +219,7 @@ def gen_worker(args):
             import earley
             nul = earley.nullable_map(g)[0]
             nullable_control = sorted(k.name() for k, v in nul.items() if v and k.name() in names)
+            nullable_implicit = sorted(k.name() for k, v in nul.items() if v and k.name() not in names)
         except Exception as e:
             res.bump("spec_skipped_" + type(e).__name__)
             continue
@@ -236,7 +237,8 @@ def gen_worker(args):
             judged_complete = complete if hist else None
             terms.append((rx.term(), sorted(sliced) if sliced else None, hist, opts, complete))
             infos.append({"spec": spec.split("class Fuzzer")[0], "sliced_to": sorted(sliced) if sliced else None, "history": hist, "offered": opts,
-                          "reported_complete": complete, "nullable_control_nonterminals": nullable_control})
+                          "reported_complete": complete, "nullable_control_nonterminals": nullable_control,
+                          "empty_deriving_repetition_symbols": len(nullable_implicit)})
             res.count(("forecast", spec, tuple(sorted(sliced)) if sliced else None, tuple(hist)), nontrivial=len(hist) >= 1)
             res.bump("history_len_%d" % len(hist))
     if infos:
@@ -302,7 +304,7 @@ def correspondence(res):
         if code == 1 or (code == 2 and not hist):
             ok += 1
             continue
-        if (inf.get("nullable_control_nonterminals") and (code == 3 or (code == 2 and not complete))
+        if ((inf.get("nullable_control_nonterminals") or inf.get("empty_deriving_repetition_symbols")) and (code == 3 or (code == 2 and not complete))
                 and "empty-deriving-nonterminal-not-completed" in sigs):
             res.known(KNOWN_NULL)
             res.bump("known_nullable_control_nonterminal")
